@@ -22,11 +22,11 @@ TRACKED_ATTRS = {"derive", "copy", "touchReset", "touch", "setFunArgs", "update"
                  "substituteCondDict", "prune", "get"}
 
 # untracked escapes that exist today, with the number of occurrences and why each is (or is not) harmless.
-# Model the code that exists: ("inputTools", "inspect") is the read behind finding F-C04-1.
+# ("inputTools", "inspect") - the names of all ambient tools for `inherit: False`, finding F-C04-1 - was removed by
+# commit 4680878; its return is reported as a new untracked access.
 ALLOWED_UNTRACKED = {
     ("inputEnv", "detach"): (1, "argument of PackageMatcher.matches (compares touched keys only)"),
     ("inputTools", "detach"): (1, "argument of PackageMatcher.matches (compares touched keys only)"),
-    ("inputTools", "inspect"): (1, "names of ALL ambient tools for `inherit: False` (untracked: finding F-C04-1)"),
     ("tools", "inspect"): (1, "toolsView: tool objects of names that are touched afterwards by tools.touch(toolDepPackage)"),
     ("tools", "detach"): (1, "all tools stored in the CorePackage; steps filter them by the touched toolDep set"),
 }
